@@ -248,6 +248,15 @@ func runC05(c *core.Ctx) {
 				case 3: // inside a longer key
 					kvs = append(kvs, kv{name + "2", "1"}, kv{"x" + name, "true"})
 					class = "delete-field-name-in-longer-key"
+				case 4, 5: // another required field repeated (once or twice): the NUMBER of required members is right, the set is not
+					if len(kvs) > 0 {
+						d := kvs[r.Intn(len(kvs))]
+						for n := 1 + r.Intn(2); n > 0; n-- {
+							pos := r.Intn(len(kvs) + 1)
+							kvs = append(kvs[:pos:pos], append([]kv{d}, kvs[pos:]...)...)
+						}
+						class = "delete-field-and-repeat-another"
+					}
 				}
 				emitDecode(class, renderObj(kvs))
 			case 1: // rename in case / near miss
